@@ -866,8 +866,11 @@ class FortranWriter(LanguageWriter):
         for symbol in local_constants:
             decln_inputs[symbol.name] = set()
             read_write_info = ReadWriteInfo()
-            self._call_tree_utils.get_input_parameters(read_write_info,
-                                                       symbol.initial_value)
+            # Arrays that are only used in inquiry functions (e.g. SIZE)
+            # must be declared first as well.
+            self._call_tree_utils.get_input_parameters(
+                read_write_info, symbol.initial_value,
+                options={"COLLECT-ARRAY-SHAPE-READS": True})
             # The dependence analysis tools do not include symbols used to
             # define precision so check for those here.
             for lit in symbol.initial_value.walk(Literal):
@@ -885,7 +888,8 @@ class FortranWriter(LanguageWriter):
                 for dim in symbol.datatype.shape:
                     if isinstance(dim, ArrayType.ArrayBounds):
                         self._call_tree_utils.get_input_parameters(
-                            read_write_info, [dim.lower, dim.upper])
+                            read_write_info, [dim.lower, dim.upper],
+                            options={"COLLECT-ARRAY-SHAPE-READS": True})
             # Remove any 'inputs' that are not local since these do not affect
             # the ordering of local declarations.
             for sig in read_write_info.signatures_read:
